@@ -59,6 +59,10 @@ CHECKS = {
    "valid encodings of every record type of the codec corpus are corrupted structure-aware using the reference codec's per-byte role map (all length/count prefixes x hostile values, all tag bytes x other values, payload flips, splices, random tails) and joined by all-00/all-FF strings of every length <= 16 and seeded random strings; ~7e5 inputs per quick run go to UnmarshalBebop and DecodeBebop in driver children under RLIMIT_AS; oracle: normal return, no panic / death / runaway / CPU > 2 s, exact allocation <= 64KiB + 1024*len",
    "held on the inputs explored; 'unbounded' is operationalised as more than 64KiB + 1024 bytes per input byte; one class (arrays of zero-wire-size elements) is a recorded known finding",
    "runtime monitoring: structure-aware corruption workload with boundary monitors (panic, OOM under RLIMIT_AS, runaway reader, CPU budget, exact allocation meter)"),
+ "C05": ("exploration",
+   "per generated package of the codec corpus, streams of 2-8 back-to-back records of mixed types (real EncodeBebop output) are decoded from one metering reader under ~10 fixed fragmentation schedules plus a chunk boundary at every wire-role boundary of the first record; after every record the reader position, the decoded value and Size() are checked, and the end of stream after the last one",
+   "held on ~2e4 (stream, schedule) pairs per quick run; schedules are a finite family, not all interleavings; every (type, value) of the pool occurs in at least one stream",
+   "runtime monitoring: history oracle (sequence equality + byte conservation per record) over read-fragmentation schedules with a metering reader"),
 }
 DESIGN = {i: "DESIGN.md section 4, %s" % i for i in CHECKS}
 
